@@ -40,6 +40,8 @@ def signature(rows, r, kf, suppressed):
     cm = rows[c - 1]["cm"]
     where = "inline" if rows[c - 1]["k"] != "C" else "own-line"
     verdict = "wrongly-suppressed" if suppressed else "wrongly-reported"
+    if cm["codes"] in ("U", "XU"):  # code lists with a name that is no diagnostic code: a mechanism of their own
+        verdict = "codes=%s/%s" % ({"U": "unknown-only", "XU": "known+unknown"}[cm["codes"]], verdict)
     if cm["kind"] == "block":
         if kf and suppressed:
             return "C19/block/comment-only-block/leaks-to-parent"
